@@ -5,6 +5,21 @@ import (
 	"fmt"
 )
 
+// findAnchoredNode looks for the node below root that carries the anchor (the last one in document order, as an
+// alias written at the end of the document would resolve it)
+func findAnchoredNode(root *CandidateNode, anchor string, except *CandidateNode) *CandidateNode {
+	var found *CandidateNode
+	if root != except && root.Anchor == anchor {
+		found = root
+	}
+	for _, child := range root.Content {
+		if match := findAnchoredNode(child, anchor, except); match != nil {
+			found = match
+		}
+	}
+	return found
+}
+
 func assignAliasOperator(d *dataTreeNavigator, context Context, expressionNode *ExpressionNode) (Context, error) {
 
 	log.Debugf("AssignAlias operator!")
@@ -43,6 +58,12 @@ func assignAliasOperator(d *dataTreeNavigator, context Context, expressionNode *
 		if aliasName != "" {
 			candidate.Kind = AliasNode
 			candidate.Value = aliasName
+			// point the new alias at the node of its document that carries the anchor (nil when there is none yet)
+			root := candidate
+			for root.Parent != nil {
+				root = root.Parent
+			}
+			candidate.Alias = findAnchoredNode(root, aliasName, candidate)
 		}
 	}
 	return context, nil
